@@ -154,6 +154,11 @@ Proof.
   - destruct (hv_set_round (votes n) (r + 1)) as [hv|e|w]; try (intro E; discriminate E). dom_call (dom_enter_propose h r).
   - destruct (hv_set_round (votes n) (r + 1)) as [hv|e|w]; try (intro E; discriminate E). dom_call (dom_enter_propose h r).
 Qed.
+Lemma dom_enter_new_round_open h r : dom (enter_new_round_open h r).
+Proof.
+  intros n s n' o. unfold enter_new_round_open. cbn [step set_sg].
+  destruct (step n <? 8); [dom_call (dom_enter_new_round h r)|dom_leaf].
+Qed.
 
 Lemma dom_enter_prevote_wait h r : dom (enter_prevote_wait h r).
 Proof.
@@ -289,7 +294,8 @@ Proof.
       rewrite E2. clearbody n2. clear n2s E2.
       generalize (height n) as hh. intro hh.
       cbn [round proposal votes set_sg].
-      destruct ((round n2 <=? v_round v) && any23 (hv_prevotes hv (v_round v))).
+      unfold any23_open. cbn [step set_sg].
+      destruct ((round n2 <=? v_round v) && ((step n2 <? 8) && any23 (hv_prevotes hv (v_round v)))).
       * revert n2 s n' o. apply dom_bind; [apply dom_enter_new_round| |].
         -- intros m t m' o. cbn [votes set_sg]. destruct (maj23 _); [dom_call (dom_enter_precommit hh (v_round v))|].
            revert m t m' o. apply dom_bind; [apply dom_enter_prevote|apply dom_enter_prevote_wait|apply SG_wait1].
@@ -304,7 +310,7 @@ Proof.
     + destruct (N.eqb (v_type v) 2); [|intro E; discriminate E]. cbn zeta.
       generalize (height n) as hh. intro hh.
       destruct (maj23 (hv_precommits hv (v_round v))) as [b|].
-      * destruct (b_hash b); [dom_call (dom_enter_new_round hh (v_round v + 1))|]. cbn [andb].
+      * destruct (b_hash b); [dom_call (dom_enter_new_round_open hh (v_round v + 1))|]. cbn [andb].
         revert n s n' o.
         apply (dom_bind (fun k => enter_new_round hh (v_round v) (set_votes k hv) >>= enter_precommit hh (v_round v) >>= enter_commit c hh (v_round v)) (fun n4 => ret n4));
           [|apply dom_ret|apply SG_ret].
@@ -313,7 +319,8 @@ Proof.
         apply (dom_bind (fun k => enter_new_round hh (v_round v) (set_votes k hv)) (enter_precommit hh (v_round v)));
           [|apply dom_enter_precommit|apply SG_enter_precommit].
         intros m t m' o. dom_call (dom_enter_new_round hh (v_round v)).
-      * destruct ((round n <=? v_round v) && any23 (hv_precommits hv (v_round v))); [|dom_leaf].
+      * unfold any23_open. cbn [step set_sg set_votes].
+        destruct ((round n <=? v_round v) && ((step n <? 8) && any23 (hv_precommits hv (v_round v)))); [|dom_leaf].
         revert n s n' o.
         apply (dom_bind (fun k => enter_new_round hh (v_round v) (set_votes k hv) >>= enter_precommit hh (v_round v)) (enter_precommit_wait hh (v_round v)));
           [|apply dom_enter_precommit_wait|apply SG_wait2].
